@@ -33,6 +33,14 @@ def cases(rng, tier):
     k = 250 if tier == "quick" else 4000
     for i in range(k):
         yield rvgen.sim_case(rng, "five", hazard=True, opts={"wide": i % 4 == 0}, trace=45, run=600, dprob=0.4, iprob=0.4, suite="sim-five")
+    for prog, regs in rvgen.fault_schedule_programs():          # schedules around faults, drains and squashed instructions
+        lines = rvgen.header("five", True, "-", "-", prog, regs, []) + ["sim.snap"]
+        for _ in range(16):
+            lines += ["sim.step", "sim.snap"]
+        lines += ["sim.run 200", "sim.snap"]
+        yield Case("sim-five", lines, None, {"mode": "five", "hazard": True, "prog": prog, "regs": regs, "pokes": [], "d": "-", "i": "-"})
+    for i in range(20 if tier == "quick" else 300):
+        yield rvgen.x0_dest_case(rng, "five", hazard=True, trace=30, run=300, dspec=rvgen.penalty_cache_spec(rng, "d") if i % 2 else "-", suite="sim-five")
     # environment calls (print-string reads through the data cache without being counted) under caches with a penalty
     for i in range(40 if tier == "quick" else 600):
         yield rvgen.ecall_case(rng, "five", hazard=True, trace=45, run=300, dspec=rvgen.penalty_cache_spec(rng, "d"),
